@@ -620,7 +620,7 @@ def plan_C16(ctx):
         "(insert/delete/substitute/transpose) of every table name, every table name extended by 1..12 bytes and every proper prefix; checks on the model that the hash lookup equals membership in the "
         "literal table (AutoEqDecl, RoundTrip) and prints what the DOCUMENTED table says; each record is executed on the real "
         "GetHdrType / GetMethodNo (+ Name() and back).  The header parser's use of the classification is covered by C07.")
-    parts = ["edits", "short", "cases", "ext"] + ([] if ctx.quick else ["caseslong"])
+    parts = ["edits", "short", "cases", "ext", "rfc"] + ([] if ctx.quick else ["caseslong"])
     for part in parts:
         ctx.tlc("MC_Lookup", simple_cfg("lookup_%s.cfg" % part, ["OffsMod = 65536", 'Part = "%s"' % part], ["AutoEqDecl", "RoundTrip", "Emit"]),
                 workers=8, min_records=1000)
@@ -788,7 +788,7 @@ def plan_C19(ctx):
         "the 8 fingerprinted lines, long/compact x fillers x value changes x later repeats x capacities x replies x cut positions); each "
         "is executed on the real parser + GetMsgSig and compared: demanded keys, metamorphic groups (same fingerprinted content => "
         "identical full signature incl. string classes and rendering), explicit-truncated-or-equal-to-ample, well-formed rendering.")
-    slices = ["perm", "fillers", "vals", "repeat", "caps8", "reply", "chunk", "probe", "viabr"] + ([] if ctx.quick else ["perm8", "perm8r", "caps"])
+    slices = ["perm", "fillers", "vals", "repeat", "caps8", "reply", "chunk", "probe", "viabr", "viaq", "names"] + ([] if ctx.quick else ["perm8", "perm8r", "caps"])
     for sl in slices:
         ctx.tlc("MC_GenSig", "MC_GenSig_%s.cfg" % sl, workers=8, min_records=90)
     ctx.nontrivial = ctx.records
